@@ -106,6 +106,60 @@ def r17_1(ctx):
     ctx.end()
 
 
+def partial_ops(fn_node):
+    """Constructs in a function body that raise for some ordinary value of their operands (empty list, index out of range, zero):
+    -> [(node, description)].  `.remove(x)` is not listed: the clean-up removes what it recorded itself (stated assumption)."""
+    out = []
+    for n in ast.walk(fn_node):
+        if isinstance(n, ast.Call) and isinstance(n.func, ast.Name):
+            if n.func.id in ("max", "min") and len(n.args) == 1 and not any(kw.arg == "default" for kw in n.keywords) \
+                    and not (isinstance(n.args[0], (ast.List, ast.Tuple, ast.Set)) and n.args[0].elts):
+                out.append((n, f"{n.func.id}() of a possibly empty collection (ValueError)"))
+            elif n.func.id == "next" and len(n.args) == 1:
+                out.append((n, "next() without a default (StopIteration)"))
+        elif isinstance(n, ast.Call) and isinstance(n.func, ast.Attribute) and n.func.attr in ("index", "pop", "popitem") and not (n.func.attr == "pop" and len(n.args) == 2):
+            out.append((n, f".{n.func.attr}() (IndexError / ValueError / KeyError)"))
+        elif isinstance(n, ast.Subscript) and isinstance(n.ctx, ast.Load) and not isinstance(n.slice, ast.Slice):
+            out.append((n, "indexing (IndexError / KeyError)"))
+        elif isinstance(n, ast.BinOp) and isinstance(n.op, (ast.Div, ast.FloorDiv, ast.Mod)):
+            out.append((n, "division (ZeroDivisionError)"))
+        elif isinstance(n, (ast.Raise, ast.Assert)):
+            out.append((n, "raise / assert"))
+    return out
+
+
+def r17_6(ctx):
+    """'even when the run is aborted by an exception at any step': the restoration stands at the end of the finally block, so
+    everything that runs in that block *before* it (helper removal, log reversal and all they call) must not be able to raise --
+    otherwise the exception leaves the block before the dependencies are swapped back."""
+    ctx.begin("R17.6", "code that runs in the finally block before the restoration contains no partial operation", floor=3)
+    f = ctx.repo.method(PROJECT, "backward_simulate")
+    tries = [n for n in f.body() if isinstance(n, ast.Try)]
+    ctx.require(len(tries) == 1 and tries[0].finalbody, "backward_simulate has no try/finally")
+    fin = tries[0].finalbody
+
+    def reaches_rev(stmt):
+        if any(isinstance(n, ast.Call) and isinstance(n.func, ast.Attribute) and n.func.attr == "reverse_dependencies" for n in ast.walk(stmt)):
+            return True
+        return any(g.name == "reverse_dependencies" for g in ctx.eff.reachable_from_stmts(f, [stmt], precise=True))
+    idx = [i for i, st in enumerate(fin) if reaches_rev(st)]
+    ctx.require(idx, "no restoring call in the finally block")
+    before = fin[: idx[0]]
+    # the statements themselves ...
+    holder = ast.Module(body=before, type_ignores=[])
+    sites = [(f, n, d) for n, d in partial_ops(holder)]
+    ctx.instance(construct(f, "finally-prefix"), cells=len(before))
+    # ... and everything they call
+    for g in ctx.eff.reachable_from_stmts(f, before, precise=True):
+        ctx.instance(g.qualname)
+        sites += [(g, n, d) for n, d in partial_ops(g.node)]
+    for g, n, d in sites:
+        ctx.violation(construct(g, f"partial-op-before-restore:{ast.unparse(n)[:40]}"), g.loc(n),
+                      f"`{ast.unparse(n)[:60]}` ({d}) runs in backward_simulate's finally block before the dependencies are restored: if it raises "
+                      f"(an empty workflow, a log shorter than expected ...) every task and workplace keeps its reversed links")
+    ctx.end()
+
+
 def r17_2(ctx):
     ctx.begin("R17.2", "reverse_dependencies is an exact swap of the same list objects for every element, no temporary left", floor=2)
     for cls, coll, ecls, a_in, a_out in ((WORKFLOW, "task_list", TASK, "input_task_list", "output_task_list"),
@@ -255,6 +309,7 @@ def r17_5(ctx):
 
 def run(ctx):
     r17_1(ctx)
+    r17_6(ctx)
     r17_2(ctx)
     r17_3(ctx)
     r17_4(ctx)
